@@ -40,6 +40,13 @@ def scenarios(run):
     for sd in seeds[:3]:
         cfg = dict(base, N=1, r=2.5, seed=sd, kpre=2, nsym=3, script=[('solve',)], iters_limit=5, eps='sym', tags=['stopped-by-accuracy'])
         out.append((cfg, 'Solve stopped by a symbolic eps: prefix f#%d (2 concrete values) + arbitrary values' % sd))
+    # a Problem whose Calculate returns a NEW value holder instead of filling the supplied one (the abstract signature allows it)
+    for sd in seeds[:2]:
+        cfg = dict(base, N=1, r=2.5, seed=sd, kpre=2, nsym=3, script=[('iter', 4)], new_holder=True, tags=['new-value-holder'])
+        out.append((cfg, 'Calculate returns a new value holder: prefix f#%d (2 concrete values) + arbitrary values' % sd))
+    # the documented (so far ignored) startPoint parameter is supplied: the record must still hold evolvent images (2-D, concrete run)
+    cfg = dict(base, N=2, r=2.5, seed=seeds[0], kpre=6, nsym=1, script=[('iter', 6)], density=3, start_point=[0.3, 2.1], tags=['start-point'])
+    out.append((cfg, 'N=2 density 3 with SolverParameters.startPoint given: 6 trials of a concrete run'))
     # a very narrow box: distinct trial points agree to many decimal places
     for sd in seeds[:2]:
         cfg = dict(base, N=1, r=2.5, seed=sd, kpre=5, nsym=2, script=[('iter', 6)], box=([2e-5], [3e-5]), tags=['narrow-box'])
@@ -77,7 +84,7 @@ def main():
     run.finish('traversal strictly increasing from 0 to 1 with consistent links and count; stored lengths, images and values are those of the '
                'completed evaluations; own value holders',
                vacuity=['recalc-pending', 'recalc-not-pending', 'interior-interval', 'left-boundary-interval', 'right-boundary-interval',
-                        'fresh', 'prefix', 'first-trial-fails', 'narrow-box', 'stopped-by-accuracy'])
+                        'fresh', 'prefix', 'first-trial-fails', 'narrow-box', 'stopped-by-accuracy', 'new-value-holder', 'start-point'])
 
 
 if __name__ == '__main__':
